@@ -71,6 +71,14 @@ def main():
              '<body pos="0 0 .09"><freejoint/><geom name="ga" size=".1" condim="1"/></body><body pos=".5 0 .09"><freejoint/><geom name="gb" size=".1" condim="3"/></body>'
              '<body pos="1 0 .09"><freejoint/><geom name="gc" size=".1"/></body></worldbody>'
              '<contact><pair geom1="floor" geom2="ga" condim="6"/><pair geom1="gb" geom2="floor" condim="6"/></contact></mujoco>')
+    if c == 3:
+      # forced every run: SPARSE Jacobian + Newton with a row capacity that is a multiple of the 16-row padding and CUTS a contact's row
+      # block (2 friction rows + 4 pyramidal contacts of 4 rows = 18 > njmax = 16): the per-contact block table of the sparse Hessian
+      # (efc_jtdaj_nrow) must be clamped to the capacity, or `_JTDACJ_sparse` walks into the next world's rows / off the array
+      sleep, jac = False, ' jacobian="sparse"'
+      xml = ('<mujoco><option timestep="0.004" jacobian="sparse"/><worldbody><geom name="floor" type="plane" size="3 3 .1" condim="3"/>'
+             '<body pos="-1 0 .5"><joint type="hinge" axis="0 1 0" frictionloss=".2"/><geom size=".05" pos=".2 0 0"/><body pos=".3 0 0"><joint type="hinge" axis="0 1 0" frictionloss=".2"/><geom size=".05" pos=".2 0 0"/></body></body>'
+             + "".join(f'<body pos="{0.4 * i:.1f} 0 .09"><freejoint/><geom size=".1" condim="3"/></body>' for i in range(4)) + '</worldbody></mujoco>')
     try:
       mjm = mujoco.MjModel.from_xml_string(xml)
     except ValueError:
@@ -79,7 +87,7 @@ def main():
     models.random_state(rng, mjm, mjd, qpos_scale=0.3, qvel_scale=1.0, unnormalized=True)
     for j in range(mjm.njnt):
       if mjm.jnt_type[j] == 0:
-        mjd.qpos[mjm.jnt_qposadr[j] + 2] = rng.uniform(0.0, 0.4) if c != 2 else 0.09
+        mjd.qpos[mjm.jnt_qposadr[j] + 2] = rng.uniform(0.0, 0.4) if c not in (2, 3) else 0.09
     mujoco.mj_forward(mjm, mjd)
     need_con, need_efc = int(mjd.ncon), int(mjd.nefc)
     nworld = int(rng.integers(1, 4))
@@ -93,6 +101,11 @@ def main():
       caps = dict(njmax=max(need_efc - 1, 0))
     if c == 2:
       caps = dict(naconmax=need_con * nworld, njmax=need_efc)   # exact fit: an out-of-range column of the last contact leaves the allocation
+    if c == 3:
+      nworld = 2
+      caps = dict(njmax=16 * max(need_efc // 16 - (need_efc % 16 == 0), 0))
+    elif jac and mode == 3 and need_efc > 16:
+      caps = dict(njmax=16 * (need_efc // 16 - (need_efc % 16 == 0)))   # sparse: the largest multiple of the padding below the demand
     if c == 0:
       # regression (fix b83d10e): sleeping enabled and NO constraint capacity — the compact solver must not be entered
       caps = dict(njmax=0)
